@@ -1,9 +1,9 @@
 CONSTANTS
-  Kind = "m"
+  Kind = "x"
   MaxE = 3
   MaxUR = 3
-  MaxF = 0
-  UseStop = TRUE
+  MaxF = 1
+  UseStop = FALSE
   Flat = FALSE
   Pre = FALSE
 SPECIFICATION Spec
